@@ -106,7 +106,7 @@ ROLES = {
     # ... a variable of a lambda bound by a walrus inside a comprehension, next to a captured variable of that spelling
     "lambdawalruscomp": "def R0():\n    {N} = 41\n    def cap0():\n        nonlocal {N}\n        {N} += 1\n    cap0()\n    h0 = lambda s1: ([({N} := v1) for v1 in s1], {N})[1]\n{FI}    return {N}, h0([7, 8]), {N}, c0\nprint(R0())\n",
     # ... the target AND the first iterable of a comprehension, while captured / a class attribute
-    "compsamename": "def R0():\n    {N} = [1, 2]\n    def cap0():\n        nonlocal {N}\n        {N} = {N} + [3]\n    cap0()\n    r1 = [{N} * 2 for {N} in {N}]\n{FI}    return {N}, r1, c0\nprint(R0())\nclass Q0:\n    {N} = [4]\n    r2 = [{N} for {N} in {N}]\nprint(Q0.r2)\n",
+    "compsamename": "def R0():\n    {N} = [1, 2]\n    def cap0():\n        nonlocal {N}\n        {N} = {N} + [3]\n    cap0()\n    r1 = [{N} * 2 for {N} in {N}]\n    r3 = [[{N} + e1 for e1 in [0]] for {N} in [5, 6] if [{N} for e2 in [1]]]\n    r4 = [[[{N} for e3 in [0]] for e4 in [0]] for {N} in [7]]\n{FI}    return {N}, r1, r3, r4, c0\nprint(R0())\nclass Q0:\n    {N} = [4]\n    r2 = [{N} for {N} in {N}]\nprint(Q0.r2)\n",
     # the identifier names a function that has parameters and holds a comprehension
     "funcwithcomp": "def {N}(a1, b1=2):\n    return [e1 + a1 for e1 in range(b1)]\n{F}print({N}(1), c0)\n",
 }
